@@ -61,13 +61,16 @@ MANIFEST = {
             "is tied to the code on every run by three correspondence runs (direct drive of both exporters into a "
             "scratch directory incl. an exhaustive small pid grid, and Acelyzer end to end with --tb, "
             "--tb --disable_file, on dense and on sparse rank sets) and an independent file-partition / "
-            "DataFrame-vs-JSON oracle incl. -f pddf, -f json, --disable_file end to end.",
+            "DataFrame-vs-JSON oracle incl. -f pddf, -f json, --disable_file end to end; the DataFrame side is "
+            "observed both through the API (get_output_data()) and through the table -f pddf writes (read back line "
+            "by line), on small scenarios and on long traces (thousands of slices; oracle only, no Coq literal).",
     "note": "Print Assumptions: closed under the global context for all ten theorems. Trusted: Coq kernel + "
             "vm_compute; the hand-written model is tied by differential testing only. The end-to-end part of the "
             "DataFrame statement ('same inputs give the same event stream under -f json and -f pddf') is not a "
             "theorem: the pipeline is not modelled here, it is checked by the oracle on generated scenarios. pid -1 "
             "events never arise end to end on FLEX inputs (coll_bw counters are not produced), so they are exercised "
-            "only by the direct drive. The oracle asserts the file partition on every case whose int pids are below "
+            "only by the direct drive. The written table prints numbers with pandas' display precision: its timestamps / "
+            "durations are compared at the precision the table shows, the API frame exactly. The oracle asserts the file partition on every case whose int pids are below "
             "2000 (rank ids below 1000, where 'pid r or 1000+r' is unambiguous) and whose events all carry a pid; "
             "pids >= 2000 (rank ids >= 1000: worker r holds the pids 1000+r only, C18_tb_worker_content) and the "
             "KeyError on a missing pid are covered by the tie only. Observed quirks, modelled as they are: worker files "
@@ -870,7 +873,7 @@ def gen_big_scenario(r, lo, hi):
     w = [r.uniform(0.6, 1.4) for _ in pids]
     n = [max(1, int(total * x / sum(w))) for x in w]
     return {"pids": pids, "big": {"n": n, "seed": r.randrange(1 << 30)}, "R": R, "target": "out.json",
-            "configs": ["json", "pddf", "pddfnf", "tb"]}
+            "configs": ["json", "pddf", "pddfnf"] + (["tb"] if r.random() < 0.3 else [])}
 
 
 def big_files(pids, b):
@@ -1080,7 +1083,7 @@ def e2e_failure(ctx, sc, env, shrink=True):
         def scaled(m, configs=narrow):
             return dict(sc, configs=configs, big=dict(sc["big"], n=[max(1, x * m // tot) for x in sc["big"]["n"]]))
         lo, hi = 0, tot
-        while hi - lo > 1 and time.time() - t0 < 45:
+        while hi - lo > 1 and time.time() - t0 < 15:
             mid = (lo + hi) // 2
             if bad(scaled(mid)):
                 hi = mid
@@ -1204,7 +1207,7 @@ def run(ctx):
         phase("tb_direct_drive")
         # ---------------------------------------------------------------- e2e
         scs = [c["scenario"] for c in corpus if c.get("kind") == "e2e"]
-        for _ in range(ctx.pick(3, 12)):            # the long traces first: they must not fall to the time limit
+        for _ in range(ctx.pick(2, 12)):            # the long traces first: they must not fall to the time limit
             scs.append(gen_big_scenario(r, 5000, ctx.pick(9000, 20000)))
         for _ in range(ctx.pick(150, 1500)):
             scs.append(gen_scenario(r, malformed=r.random() < 0.08))
@@ -1286,7 +1289,7 @@ def run(ctx):
                 seen_nt.add(("df", json.dumps(c["events"], sort_keys=True)))
         phase("df_direct_drive")
         # large exports (size region): oracle only, no Coq literal
-        for _ in range(ctx.pick(24, 200)):
+        for _ in range(ctx.pick(14, 200)):
             df_big.append(gen_df_big(r))
         t_stream = time.time()
         for ci, c in enumerate(df_big):
